@@ -9,6 +9,8 @@
                           ret(r)                   attempt() returned                        : r's result has been delivered
                           conn close k             the client of connection k is finished    : dead or gone
                           pool(n, q)               at a quiescent point: len(pool), len(queue) = clients in the pool, requests waiting
+                          holds(m)                 (HTTP relay) the peer reads request m        : some client holds m
+                          pool(.., oc)             (HTTP relay) connections held                = conns
    What it does not see - an idle client being woken (Poll), a delivery ending (Deliver), the look at the socket that
    sends a request back (Requeue), the idle timeout (IdleExpire), the link callback (Unlink) - are silent steps.
    cfg of a file's traces: pool_size (0 = unbounded), reuse.  A trace nobody can consume is drift. *)
@@ -32,19 +34,28 @@ EvOpen == /\ E.t = "conn" /\ E.what = "open" /\ ~Known(E.conn)
                 /\ cmap' = [k \in DOMAIN cmap \cup {E.conn} |-> IF k = E.conn THEN c ELSE cmap[k]]
 \* the downstream reads the MAIL of request r on connection k: that client holds r
 EvMail == /\ E.t = "peer" /\ E.stage = "mail" /\ E.m # 0
-          /\ Known(E.conn) /\ clients[cmap[E.conn]].st = "busy" /\ clients[cmap[E.conn]].req = E.m
+          /\ Known(E.conn) /\ cmap[E.conn] # 0 /\ clients[cmap[E.conn]].st = "busy" /\ clients[cmap[E.conn]].req = E.m
           /\ UNCHANGED <<vars, cmap>>
 EvPeerOther == /\ E.t = "peer" /\ ~(E.stage = "mail" /\ E.m # 0) /\ UNCHANGED <<vars, cmap>>
 EvRet == /\ E.t = "ret" /\ result[E.req] = E.req /\ UNCHANGED <<vars, cmap>>
+\* (an HTTP client closes its connection when a request has failed - before it hands the failure over -, when it has waited
+\*  idle_timeout for nothing, and when it ends)
 EvClose == /\ E.t = "conn" /\ E.what = "close"
-           /\ (Known(E.conn) => clients[cmap[E.conn]].st \in {"closing", "dead", "gone"})
+           /\ (Known(E.conn) /\ cmap[E.conn] # 0) =>
+                 LET c == cmap[E.conn] IN
+                 IF Http THEN clients[c].st \in {"busy", "closing", "dead", "gone"} \/ ~clients[c].conn
+                         ELSE clients[c].st \in {"closing", "dead", "gone"}
+           /\ cmap' = [k \in DOMAIN cmap |-> IF k = E.conn THEN 0 ELSE cmap[k]]
+           /\ UNCHANGED vars
+\* the HTTP peer reads request m: some client holds it
+EvHolds == /\ E.t = "holds" /\ \E c \in DOMAIN clients : clients[c].st = "busy" /\ clients[c].req = E.m
            /\ UNCHANGED <<vars, cmap>>
 \* (at a quiescent point every started client has reached its first poll and every ended client has been taken off the books)
-EvBooks == /\ E.t = "pool" /\ Cardinality(InPool) = E.n /\ Len(queue) = E.q
+EvBooks == /\ E.t = "pool" /\ Cardinality(InPool) = E.n /\ Len(queue) = E.q /\ (E.oc >= 0 => conns = E.oc)
            /\ \A c \in DOMAIN clients : clients[c].st \notin {"new", "dead"}
            /\ UNCHANGED <<vars, cmap>>
 EvStutter == /\ E.t \in {"advance", "peer_content", "end"} /\ UNCHANGED <<vars, cmap>>
-Logged == /\ l <= Len(Tr) /\ (EvCall \/ EvOpen \/ EvMail \/ EvPeerOther \/ EvRet \/ EvClose \/ EvBooks \/ EvStutter)
+Logged == /\ l <= Len(Tr) /\ (EvCall \/ EvOpen \/ EvMail \/ EvPeerOther \/ EvRet \/ EvClose \/ EvHolds \/ EvBooks \/ EvStutter)
           /\ l' = l + 1 /\ UNCHANGED tid
 \* (bounds that keep the search small without excluding anything real: a request is sent back only when the downstream has
 \*  said something unasked - the driver counts those moments (nrq) -, and no more clients exist than connections were opened, plus
